@@ -1460,6 +1460,16 @@ func TestVerifC08ObservePSKHalfInitialised(t *testing.T) {
 	if L != n {
 		st.Class("observation:utls-psk-without-session:len!=read(outside-domain,no-verdict)")
 	}
+	// Second observation: a candidate AEAD the package has no length rule for (HPKE registry has 1,2,3 and 0xffff).
+	g := &GREASEEncryptedClientHelloExtension{CandidateCipherSuites: []HPKESymmetricCipherSuite{{KdfId: 1, AeadId: 0xffff}}}
+	var gl int
+	p := vfCatch(func() { gl = g.Len() })
+	if p != nil {
+		st.Extra("observe_grease_ech_unsupported_aead", fmt.Sprintf("Len() panics: %v", p.Val))
+		st.Class("observation:grease-ech-unsupported-aead:Len-panics(outside-domain,no-verdict)")
+	} else {
+		st.Extra("observe_grease_ech_unsupported_aead", fmt.Sprintf("Len()=%d", gl))
+	}
 }
 
 // vf08Inconclusive ends the process in a way the driver reports as INCONCLUSIVE (worker death), never as a verdict.
